@@ -10,7 +10,7 @@ LEVEL = "proof"
 TRUSTED = cc.TRUSTED
 ASSUMPTIONS = ["TLS-active configurations are reached through a real in-process TLS handshake (implicit TLS); crypto/tls itself is not modelled"]
 RULE = ("conv probe, EXHAUSTIVE over the configuration space: 5 extension flags x size limit {0,N} x recipient limit {0,N} x TLS "
-        "{none, available, active} x AllowInsecureAuth x backend {auth-capable, not} x {SMTP, LMTP} = 3072 configurations; in each: "
+        "{none, available, active} x AllowInsecureAuth x backend {plain Session, AuthSession with two mechanisms, AuthSession with none} x {SMTP, LMTP} = 4608 configurations; in each: "
         "EHLO/LHLO, then one probe command per extension (SMTPUTF8, REQUIRETLS, BODY=BINARYMIME, RET/ENVID, NOTIFY, ORCPT, RRVS, AUTH, "
         "STARTTLS), the same probes with keywords and values in another letter case, plus a HELO conversation; capability lines compared as an ordered list with the specification table, probe "
         "replies with the 504 rule. non-trivial = every case (a capability reply is produced); distinct = distinct configuration")
@@ -64,9 +64,10 @@ def respell(p, rng):
 def groups(tier, rng):
     cases, helo, variants = [], [], []
     for utf8, reqtls, binmime, dsn, rrvs, mm, mr, tls, ins, auth, lmtp in itertools.product(
-            (0, 1), (0, 1), (0, 1), (0, 1), (0, 1), (0, 77), (0, 3), ("none", "avail", "implicit"), (0, 1), (0, 1), (0, 1)):
+            (0, 1), (0, 1), (0, 1), (0, 1), (0, 1), (0, 77), (0, 3), ("none", "avail", "implicit"), (0, 1), (0, 1, 2), (0, 1)):
+        # auth: 0 = a plain Session, 1 = an AuthSession offering two mechanisms, 2 = an AuthSession that offers none (AUTH must not be listed)
         cfg = dict(utf8=utf8, reqtls=reqtls, binmime=binmime, dsn=dsn, rrvs=rrvs, maxmsg=mm, maxrcpt=mr, tls=tls, insecure=ins,
-                   authsess=auth, mechs=(hx(b"PLAIN") + ":" + hx(b"X-MECH")) if auth else "-", lmtp=lmtp)
+                   authsess=1 if auth else 0, mechs=(hx(b"PLAIN") + ":" + hx(b"X-MECH")) if auth == 1 else "-", lmtp=lmtp)
         c = g.Conv(cfg)
         c.add((b"LHLO" if lmtp else b"EHLO") + b" probe.example\r\n")
         for p in PROBES:
